@@ -161,10 +161,12 @@ def unit_grads(ctx, names):
             shapes = [(3, 2, 6)] if name == "per_antenna_power" else [(12,), (3, 8)]
             if name.startswith("ray") or name.startswith("ric"):
                 shapes = [(10,), (2, 9)]
-            for shape in shapes:
+            extra_seeds = range(5) if ctx.tier == "thorough" else range(1)
+            for shape in shapes + ([(2, 3, 4, 5)] if (ctx.tier == "thorough" and name != "per_antenna_power") else []):
                 for scale in (0.3, 1.0, 5.0) if mode != "gradcheck_peak" else (1.0,):
-                    check_grad(ctx, None, {"stage": name, "complex": cplx, "shape": list(shape), "scale": scale, "seed": ctx.seed})
-    ctx.sample({"stages": names, "method": "gradcheck eps=1e-6 / central differences eps=1e-3, RNG re-seeded before every call"})
+                    for es in extra_seeds:
+                        check_grad(ctx, None, {"stage": name, "complex": cplx, "shape": list(shape), "scale": scale, "seed": ctx.seed + 1000 * es})
+    ctx.sample({"stages": names, "method": "gradcheck eps=1e-6 / central differences eps=1e-2, RNG re-seeded before every call"})
 
 
 def unit_grad_scales(ctx):
